@@ -11,7 +11,7 @@ EXTENDS NumText
 
 CONSTANTS PrintTypes,            \* source types printed
           IntFormats, FltFormats, \* sets of [flags, width, dec]
-          Lefts,                 \* buffer sizes
+          Lefts, FltLefts,       \* buffer sizes (integer / floating prints)
           FmtAlphabet, FmtLen,   \* format descriptions
           DestAlphabet, DestLen, DestSeps, DestMax,
           RDsts, RBases, RAlphabet, RLen,   \* numerals read with a range
@@ -42,11 +42,10 @@ VF(fl, w, d) == [flags |-> fl, width |-> w, dec |-> d]
 IntFormatsQ == {VF(fl, w, 0) : fl \in {0, 1, 2, 256, 257, 512, 4}, w \in {0, 3}} \cup {VF(768, 5, 0)}
 FltFormatsQ == {VF(fl, 0, d) : fl \in {0, 32, 288}, d \in {0, 2, 3}} \cup {VF(0, 7, 2), VF(32, 7, 0), VF(16, 0, 2), VF(64, 0, 1), VF(512, 9, 1)}
 IntFormatsT == {VF(fl, w, 0) : fl \in {0, 1, 2, 3, 256, 257, 258, 512, 513, 4, 8}, w \in {0, 2, 3, 5}}
-FltFormatsT == {VF(fl, w, d) : fl \in {0, 32, 256, 288, 512}, w \in {0, 5, 9}, d \in {0, 1, 2, 3, 4}} \cup {VF(16, 0, 2), VF(64, 0, 1)}
-
+FltFormatsT == {VF(fl, w, d) : fl \in {0, 32, 288}, w \in {0, 9}, d \in {0, 1, 2, 3, 4}} \cup {VF(16, 0, 2), VF(64, 0, 1), VF(512, 5, 2)}
 IntFormatsG == {VF(fl, w, 0) : fl \in {0, 1, 2, 256}, w \in {0, 7}} \cup {VF(513, 30, 0), VF(4, 0, 0)}
 FltFormatsG == {VF(0, 0, 0), VF(0, 0, 3), VF(32, 0, 8), VF(32, 30, 16), VF(16, 0, 13)}
-IntFormatsGT == {VF(fl, w, 0) : fl \in {0, 1, 2, 3, 256, 257, 512}, w \in {0, 7, 30}} \cup {VF(513, 30, 0), VF(4, 0, 0), VF(8, 3, 0), VF(32, 0, 2)}
+IntFormatsGT == {VF(fl, w, 0) : fl \in {0, 1, 2, 256, 257}, w \in {0, 7}} \cup {VF(513, 30, 0), VF(4, 0, 0)}
 FltFormatsGT == {VF(0, 0, 0), VF(256, 12, 0), VF(0, 0, 3), VF(32, 0, 8), VF(32, 30, 16), VF(32, 0, 20), VF(0, 0, 40), VF(16, 0, 13), VF(288, 0, 17),
                  VF(512, 9, 2), VF(64, 0, 2), VF(1, 0, 5)}
 
@@ -59,9 +58,10 @@ Picks(t) == LET T == TypeTab[t] IN
             ELSE {Fin(0, Zero, 0), Fin(0, One, 0), Fin(1, FromInt(3), -1), MaxFin(T), Inf(0), NaN}
 
 MCInit ==
-  \/ \E t \in PrintTypes, left \in Lefts :
+  \/ \E t \in PrintTypes, left \in Lefts \cup FltLefts :
        \E f \in (IF TypeTab[t].kind = "int" THEN IntFormats ELSE FltFormats) :
-         obs = [a |-> "init", arg |-> [kind |-> "print", src |-> t, f |-> f, left |-> left], exp |-> [x |-> 0]]
+         /\ left \in (IF TypeTab[t].kind = "int" THEN Lefts ELSE FltLefts)
+         /\ obs = [a |-> "init", arg |-> [kind |-> "print", src |-> t, f |-> f, left |-> left], exp |-> [x |-> 0]]
   \/ \E first \in FmtAlphabet \cup {0} :
        obs = [a |-> "init", arg |-> [kind |-> "fmt", first |-> first], exp |-> [x |-> 0]]
   \/ \E first \in DestAlphabet \cup {0}, sep \in DestSeps, max \in DestMax :
